@@ -21,6 +21,7 @@ def Prog.All (P : Act → Prop) (Q : Reg → Prop) : Prog → Prop
   | .tryExcept b h _ => b.All P Q ∧ h.All P Q
   | .raise _ => True
   | .withNew _ _ t b => Q t ∧ b.All P Q
+  | .nextGuard b => P .iterClose ∧ b.All P Q
 
 /-- `p` leaves `π` as it found it, whatever the fault plan -/
 def Neutral {β : Type} (π : World → β) (p : Prog) : Prop := ∀ f w, π (p.run f w).w = π w
@@ -56,8 +57,22 @@ theorem neutral_tryExcept {β} (π : World → β) (p q x) (hp : Neutral π p) (
   simp only [Prog.run]
   split
   · exact hp f w
+  · exact hp f w
   · show π (q.run _ _).w = π w
     rw [hq, hp]
+
+theorem neutral_nextGuard {β} (π : World → β) (p) (hp : Neutral π p) (hc : ∀ w, π (Act.iterClose.apply w) = π w) :
+    Neutral π (.nextGuard p) := by
+  intro f w
+  simp only [Prog.run]
+  split
+  · exact hp f w
+  · exact hp f w
+  · exact hp f w
+  · show π (Act.iterClose.apply _) = π w
+    rw [hc, hp]
+  · show π (Act.iterClose.apply _) = π w
+    rw [hc, hp]
 
 theorem neutral_withNew {β} (π : World → β) (hs : Stable π) (c r t b)
     (hset : ∀ w v, π (w.setReg t v) = π w) (hb : Neutral π b) :
@@ -92,6 +107,7 @@ theorem neutral_of_all {β} (π : World → β) (hs : Stable π) (P : Act → Pr
   | tryExcept b hd x ihb ihh => exact neutral_tryExcept π b hd x (ihb h.1) (ihh h.2)
   | raise e => exact neutral_raise π e
   | withNew c r t b ih => exact neutral_withNew π hs c r t b (hQ t h.1) (ih h.2)
+  | nextGuard b ih => exact neutral_nextGuard π b (ih h.2) (hP _ h.1)
 
 /-- an action that is not a Pillow call always runs and never raises -/
 theorem run_act_nocall (a : Act) (h : a.call? = none) (f : Option Nat) (w : World) :
@@ -182,6 +198,7 @@ def Prog.allB (P : Act → Bool) (Q : Reg → Bool) : Prog → Bool
   | .tryExcept b h _ => b.allB P Q && h.allB P Q
   | .raise _ => true
   | .withNew _ _ t b => Q t && b.allB P Q
+  | .nextGuard b => P .iterClose && b.allB P Q
 
 theorem all_of_allB (P : Act → Bool) (Q : Reg → Bool) (p : Prog) (h : p.allB P Q = true) :
     p.All (fun a => P a = true) (fun t => Q t = true) := by
@@ -193,6 +210,7 @@ theorem all_of_allB (P : Act → Bool) (Q : Reg → Bool) (p : Prog) (h : p.allB
   | tryExcept b hd x ihb ihh => simp only [Prog.allB, Bool.and_eq_true] at h; exact ⟨ihb h.1, ihh h.2⟩
   | raise e => trivial
   | withNew c r t b ih => simp only [Prog.allB, Bool.and_eq_true] at h; exact ⟨h.1, ih h.2⟩
+  | nextGuard b ih => simp only [Prog.allB, Bool.and_eq_true] at h; exact ⟨h.1, ih h.2⟩
 
 theorem allB_mono (P P' : Act → Bool) (Q Q' : Reg → Bool) (hP : ∀ a, P a = true → P' a = true)
     (hQ : ∀ t, Q t = true → Q' t = true) (p : Prog) (h : p.allB P Q = true) : p.allB P' Q' = true := by
@@ -204,6 +222,7 @@ theorem allB_mono (P P' : Act → Bool) (Q Q' : Reg → Bool) (hP : ∀ a, P a =
   | tryExcept b hd x ihb ihh => simp only [Prog.allB, Bool.and_eq_true] at h ⊢; exact ⟨ihb h.1, ihh h.2⟩
   | raise e => rfl
   | withNew c r t b ih => simp only [Prog.allB, Bool.and_eq_true] at h ⊢; exact ⟨hQ t h.1, ih h.2⟩
+  | nextGuard b ih => simp only [Prog.allB, Bool.and_eq_true] at h ⊢; exact ⟨hP _ h.1, ih h.2⟩
 
 theorem allB_block (P : Act → Bool) (Q : Reg → Bool) (ps : List Prog) (h : ∀ p ∈ ps, p.allB P Q = true) :
     (Prog.block ps).allB P Q = true := by
@@ -275,30 +294,59 @@ theorem released_iterDrop (w : World) : Released (Act.iterDrop.apply w) := by
     simp only [World.reg, closeImageH_regs]
     simp [World.setReg]
 
-/-- `__next__`: if anything at all goes wrong while producing a frame, the iterator lets go -/
-theorem iterNext_failure_releases (first : Bool) (body : Prog) (f : Option Nat) (w : World)
-    (h : ((iterNext first body).run f w).exc ≠ none) : Released ((iterNext first body).run f w).w := by
-  simp only [iterNext, Prog.run] at h ⊢
-  split at h
-  · rename_i he; rw [he] at h; exact absurd rfl h
-  · rename_i e he
-    simp only [he, Act.call?]
-    exact released_iterClose _
+/-- the two ways out of `__next__` that run no clean-up: a `BaseException` passes through, and an
+    AttributeError whose message ends in `'_animator'` is taken for "already closed" -/
+def Exc.bypasses (e : Exc) : Bool := e == .keyboardInterrupt || e == .stopIteration
+
+/-- THE HANDLER TABLE of `__next__`: whatever `next(self._animator)` raises other than a
+    `BaseException` or the `'_animator'` AttributeError comes out as itself (a StopIteration from
+    inside the generator as RuntimeError) — never as exhaustion — after `self.close()` has run -/
+theorem nextGuard_table (body : Prog) (f : Option Nat) (w : World) (e0 : Exc)
+    (h0 : (body.run f w).exc = some e0) (hk : e0 ≠ .keyboardInterrupt) (ha : e0 ≠ .attrAnimator) :
+    ((Prog.nextGuard body).run f w).exc = some (if e0 = .stopIter then .runtimeError else e0) ∧
+    Released ((Prog.nextGuard body).run f w).w := by
+  simp only [Prog.run, h0]
+  cases e0 <;> first
+    | exact absurd rfl hk
+    | exact absurd rfl ha
+    | exact ⟨rfl, released_iterClose _⟩
+
+theorem nextGuard_failure_releases (body : Prog) (f : Option Nat) (w : World) (e : Exc)
+    (h : ((Prog.nextGuard body).run f w).exc = some e) (hb : e.bypasses = false) :
+    Released ((Prog.nextGuard body).run f w).w := by
+  simp only [Prog.run] at h ⊢
+  generalize body.run f w = o at h ⊢
+  obtain ⟨ow, of, oe⟩ := o
+  cases oe with
+  | none => simp at h
+  | some x =>
+    cases x <;> simp only at h ⊢ <;> first
+      | exact released_iterClose _
+      | (simp at h; subst h; simp [Exc.bypasses] at hb)
+
+/-- `__next__`: whenever it raises anything but the two bypassing outcomes, the iterator has let go -/
+theorem iterNext_failure_releases (first : Bool) (body : Prog) (f : Option Nat) (w : World) (e : Exc)
+    (h : ((iterNext first body).run f w).exc = some e) (hb : e.bypasses = false) :
+    Released ((iterNext first body).run f w).w :=
+  nextGuard_failure_releases _ f w e h hb
 
 theorem iterFrames_failure_releases (v : Variant) (frames : List RP) :
-    ∀ (n : Nat) (first : Bool) (f : Option Nat) (w : World),
-      ((iterFrames v n first frames).run f w).exc ≠ none → Released ((iterFrames v n first frames).run f w).w := by
+    ∀ (n : Nat) (first : Bool) (f : Option Nat) (w : World) (e : Exc),
+      ((iterFrames v n first frames).run f w).exc = some e → e.bypasses = false →
+        Released ((iterFrames v n first frames).run f w).w := by
   induction frames with
-  | nil => intro n first f w h; simp [iterFrames, Prog.run] at h
+  | nil => intro n first f w e h; simp [iterFrames, Prog.run] at h
   | cons p ps ih =>
-    intro n first f w h
+    intro n first f w e h hb
     simp only [iterFrames, Prog.run] at h ⊢
     split
-    · rename_i e he
-      exact iterNext_failure_releases first _ f w (by rw [he]; simp)
+    · rename_i e' he
+      simp only [he] at h
+      simp at h; subst h
+      exact iterNext_failure_releases first _ f w e' he hb
     · rename_i he
       simp only [he] at h
-      exact ih _ _ _ _ h
+      exact ih _ _ _ _ e h hb
 
 /-- the way an iteration ends -/
 def endingProg (src : Src) (nFrames : Nat) (noFrames : Bool) : Ending → Prog
@@ -307,14 +355,16 @@ def endingProg (src : Src) (nFrames : Nat) (noFrames : Bool) : Ending → Prog
   | .drop => .act .iterDrop
   | .imgCloseThenClose => Prog.block [.act .imageClose, .act .iterClose]
 
-theorem ending_releases (src : Src) (n : Nat) (b : Bool) (e : Ending) (f : Option Nat) (w : World) :
+theorem ending_releases (src : Src) (n : Nat) (b : Bool) (e : Ending) (f : Option Nat) (w : World)
+    (hb : ∀ x, ((endingProg src n b e).run f w).exc = some x → x.bypasses = false) :
     Released ((endingProg src n b e).run f w).w := by
   cases e with
   | exhaust =>
-    simp only [endingProg, Prog.block, Prog.run]
+    simp only [endingProg, Prog.block, Prog.run] at hb ⊢
     split
     · rename_i e he
-      exact iterNext_failure_releases b _ f w (by rw [he]; simp)
+      simp only [he] at hb
+      exact iterNext_failure_releases b _ f w e he (hb e rfl)
     · simp only [Act.call?]; exact released_iterClose _
   | close => simp only [endingProg, Prog.run, Act.call?]; exact released_iterClose _
   | drop => simp only [endingProg, Prog.run, Act.call?]; exact released_iterDrop _
@@ -861,7 +911,17 @@ theorem srcOK_run (s : Nat) (p : Prog) : ∀ (f : Option Nat) (w : World), SrcOK
     simp only [Prog.run]
     split
     · exact ihb f w h
+    · exact ihb f w h
     · exact ihh _ _ (ihb f w h)
+  | nextGuard b ih =>
+    intro f w h
+    simp only [Prog.run]
+    split
+    · exact ih f w h
+    · exact ih f w h
+    · exact ih f w h
+    · exact srcOK_act s .iterClose _ (ih f w h)
+    · exact srcOK_act s .iterClose _ (ih f w h)
   | raise e => intro f w h; exact h
   | withNew c r t b ih =>
     intro f w h
